@@ -1212,6 +1212,75 @@ def record_bindings(fn, find_method=None, find_function=None, record_classes=Non
     return out
 
 
+def split_record_arms(fn, record_classes):
+    """Copy of fn (nodes traceable through `_origin`) in which a record bound once per arm of an `if / elif / else` chain —
+        if A: x = R(…)   elif B: …; x = R(…)   else: raise …
+        <tail that uses x>
+    is bound to a name of its own in each arm, the tail following it there: every such name is bound once, so the record
+    reads as its field expressions (`expand_records`). Arms that raise are kept as they are; a tail of more than 8
+    statements, or one with loops, is left alone."""
+    record_classes = record_classes or {}
+    out = clone_with_origin(fn)
+
+    def arms_of(node):
+        arms = [node.body]
+        while len(node.orelse) == 1 and isinstance(node.orelse[0], ast.If):
+            node = node.orelse[0]
+            arms.append(node.body)
+        if node.orelse:
+            arms.append(node.orelse)
+        return arms
+
+    def binding(arm):
+        last = arm[-1] if arm else None
+        if isinstance(last, ast.Assign) and len(last.targets) == 1 and isinstance(last.targets[0], ast.Name) \
+                and isinstance(last.value, ast.Call) and isinstance(last.value.func, ast.Name) and last.value.func.id in record_classes:
+            return last.targets[0].id
+        return None
+
+    def rename(node, old, new_):
+        for x in ast.walk(node):
+            if isinstance(x, ast.Name) and x.id == old:
+                x.id = new_
+        return node
+
+    def visit(stmts):
+        for st in stmts:
+            for fld in ("body", "orelse", "finalbody"):
+                sub = getattr(st, fld, None)
+                if isinstance(sub, list) and sub and isinstance(sub[0], ast.stmt) and not isinstance(st, (ast.FunctionDef, ast.ClassDef)):
+                    visit(sub)
+        for i, st in enumerate(stmts):
+            if not isinstance(st, ast.If):
+                continue
+            arms = arms_of(st)
+            names = {binding(a) for a in arms if binding(a)}
+            raising = [a for a in arms if a and isinstance(a[-1], ast.Raise)]
+            tail = stmts[i + 1:]
+            if len(names) != 1 or len([a for a in arms if binding(a)]) < 2 or len(raising) + len([a for a in arms if binding(a)]) != len(arms) \
+                    or not tail or len(tail) > 8 or any(isinstance(x, (ast.For, ast.While)) for t in tail for x in ast.walk(t)):
+                continue
+            x = next(iter(names))
+            # the chain must be complete (an else arm) — otherwise the tail also runs with x unbound by the chain
+            last_if = st
+            while len(last_if.orelse) == 1 and isinstance(last_if.orelse[0], ast.If):
+                last_if = last_if.orelse[0]
+            if not last_if.orelse:
+                continue
+            n = 0
+            for a in arms:
+                if binding(a) != x:
+                    continue
+                n += 1
+                nm = f"{x}__arm{n}"
+                rename(a[-1], x, nm)
+                a.extend(rename(clone_with_origin(t), x, nm) for t in tail)
+            del stmts[i + 1:]
+            break
+    visit(out.body)
+    return set_parents(out)
+
+
 def expand_records(fn, find_method=None, find_function=None, record_classes=None):
     """Copy of fn (nodes traceable through `_origin`) where the uses of a record built by a straight-line helper read as
     what they stand for: `x.field` is the field's expression, `x.prop` / `x.method(args)` the single expression the
